@@ -64,6 +64,7 @@ type VC struct {
 	litSeen  map[string]bool
 	Opt      VCOptions
 	inlineDepth int
+	lightAssemble bool // Houdini candidate checks: skip the generator-side forall instantiation
 }
 
 type VCOptions struct {
@@ -209,19 +210,44 @@ func (vc *VC) Query(o *Obligation, axioms *AxiomSet) string {
 	if o.Cover {
 		body = append(body, "(assert "+sAnd(o.Guard, o.Cond)+")")
 	} else {
-		body = append(body, "(assert "+sAnd(o.Guard, sNot(o.Cond))+")")
+		// skolemise the universally quantified parts of the goal so that generator-side instantiation sees the witnesses
+		goal, skDecls := skolemizeGoal(o.Cond)
+		decls = append(decls, skDecls...)
+		body = append(body, "(assert "+sAnd(o.Guard, sNot(goal))+")")
 	}
 	return vc.assemble(decls, body, axioms)
 }
 
 func (vc *VC) assemble(decls, body []string, axioms *AxiomSet) string {
 	text := strings.Join(body, "\n")
-	if qi := instantiateForalls(text); len(qi) > 0 {
-		text = text + "\n" + strings.Join(qi, "\n")
-	}
 	var axDecls, axInst []string
 	if axioms != nil {
 		axDecls, axInst = axioms.Instantiate(text + "\n" + strings.Join(decls, "\n"))
+	}
+	// ground instances of quantified hypotheses (user foralls and those inside axiom instances)
+	var axText []string
+	for _, a := range axInst {
+		axText = append(axText, "(assert "+a+")")
+	}
+	var qi []string
+	if !vc.lightAssemble {
+		qi = instantiateForalls(text + "\n" + strings.Join(axText, "\n"))
+	}
+	if len(qi) > 0 {
+		text = text + "\n" + strings.Join(qi, "\n")
+		if axioms != nil {
+			// new ground terms may trigger further axiom instances
+			_, more := axioms.Instantiate(text + "\n" + strings.Join(axText, "\n"))
+			have := map[string]bool{}
+			for _, a := range axInst {
+				have[a] = true
+			}
+			for _, a := range more {
+				if !have[a] {
+					axInst = append(axInst, a)
+				}
+			}
+		}
 	}
 	all := strings.Join(decls, "\n") + "\n" + strings.Join(axDecls, "\n") + "\n" + strings.Join(axInst, "\n") + "\n" + text
 	// datatype declarations needed
@@ -283,7 +309,83 @@ func eraseVersions(s string) string { return versionSuffix.ReplaceAllString(s, "
 func instantiateForalls(text string) []string {
 	var out []string
 	seen := map[string]bool{}
-	lines := strings.Split(text, "\n")
+	hay := text
+	for round := 0; round < 2; round++ {
+		added := instantiateForallsOnce(hay, seen)
+		if len(added) == 0 {
+			break
+		}
+		out = append(out, added...)
+		hay = hay + "\n" + strings.Join(added, "\n")
+		if len(out) > 600 {
+			break
+		}
+	}
+	return out
+}
+
+// balancedAt returns the balanced s-expression starting at text[i] ('(').
+func balancedAt(text string, i int) string {
+	d := 0
+	for j := i; j < len(text); j++ {
+		switch text[j] {
+		case '(':
+			d++
+		case ')':
+			d--
+			if d == 0 {
+				return text[i : j+1]
+			}
+		}
+	}
+	return ""
+}
+
+var defLine = regexp.MustCompile(`(?m)^\(assert \(= ([A-Za-z_!][^ ()]*) (.*)\)\)$`)
+
+// expandDefs replaces defined names (from "(assert (= name term))" lines) by their definitions, a few levels deep.
+func expandDefs(term string, defs map[string]string) string {
+	for depth := 0; depth < 4; depth++ {
+		changed := false
+		var b strings.Builder
+		i := 0
+		for i < len(term) {
+			c := term[i]
+			if c == '(' || c == ')' || c == ' ' {
+				b.WriteByte(c)
+				i++
+				continue
+			}
+			j := i
+			for j < len(term) && term[j] != '(' && term[j] != ')' && term[j] != ' ' {
+				j++
+			}
+			tok := term[i:j]
+			if d, ok := defs[tok]; ok && len(d) < 400 {
+				b.WriteString(d)
+				changed = true
+			} else {
+				b.WriteString(tok)
+			}
+			i = j
+		}
+		term = b.String()
+		if !changed {
+			break
+		}
+	}
+	return term
+}
+
+func instantiateForallsOnce(text string, seen map[string]bool) []string {
+	var out []string
+	defs := map[string]string{}
+	for _, m := range defLine.FindAllStringSubmatch(text, -1) {
+		if _, dup := defs[m[1]]; !dup && balanced2(m[2]) {
+			defs[m[1]] = m[2]
+		}
+	}
+	norm := func(t string) string { return eraseVersions(expandDefs(t, defs)) }
 	type sel struct{ arr, idx string }
 	var sels []sel
 	selSeen := map[string]bool{}
@@ -298,19 +400,25 @@ func instantiateForalls(text string) []string {
 		selSeen[k] = true
 		sels = append(sels, sel{a[0], a[1]})
 	}
-	for _, ln := range lines {
-		if !strings.HasPrefix(ln, "(assert (forall ((") {
+	faSeen := map[string]bool{}
+	idx := 0
+	for {
+		i := strings.Index(text[idx:], "(forall ((")
+		if i < 0 {
+			break
+		}
+		start := idx + i
+		idx = start + 9
+		fa := balancedAt(text, start)
+		if fa == "" || faSeen[fa] {
 			continue
 		}
-		parts := sexprParts(ln)
-		if len(parts) != 2 {
+		faSeen[fa] = true
+		parts := sexprParts(fa) // forall, ((q Int)), (! body :pattern (pat))
+		if len(parts) != 3 {
 			continue
 		}
-		fa := sexprParts(parts[1]) // forall, ((q Int)), (! body :pattern (pat))
-		if len(fa) != 3 || fa[0] != "forall" {
-			continue
-		}
-		bvs := sexprParts(fa[1])
+		bvs := sexprParts(parts[1])
 		if len(bvs) != 1 {
 			continue
 		}
@@ -319,11 +427,23 @@ func instantiateForalls(text string) []string {
 			continue
 		}
 		bv := bvp[0]
-		bang := sexprParts(fa[2])
+		bang := sexprParts(parts[2])
 		if len(bang) != 4 || bang[0] != "!" || bang[2] != ":pattern" {
 			continue
 		}
 		body := bang[1]
+		// the quantifier must be closed (no variable of an enclosing quantifier)
+		if strings.Contains(strings.ReplaceAll(fa, bv, ""), "q!") {
+			closed := true
+			for _, tok := range strings.FieldsFunc(strings.ReplaceAll(fa, bv, ""), func(r rune) bool { return r == '(' || r == ')' || r == ' ' }) {
+				if strings.HasPrefix(tok, "q!") && !strings.Contains(fa, "(("+tok+" Int))") {
+					closed = false
+				}
+			}
+			if !closed {
+				continue
+			}
+		}
 		pats := sexprParts(bang[3])
 		if len(pats) < 1 {
 			continue
@@ -332,39 +452,156 @@ func instantiateForalls(text string) []string {
 		if len(pat) != 3 || pat[0] != "select" {
 			continue
 		}
-		arr, idx := pat[1], pat[2]
+		arr, pidx := pat[1], pat[2]
 		var off string
 		switch {
-		case idx == bv:
+		case pidx == bv:
 			off = ""
 		default:
-			ip := sexprParts(idx)
+			ip := sexprParts(pidx)
 			if len(ip) == 3 && ip[0] == "+" && ip[2] == bv && !strings.Contains(ip[1], bv) {
 				off = ip[1]
 			} else {
 				continue
 			}
 		}
-		arrE := eraseVersions(arr)
+		arrE := norm(arr)
+		fam := heapFamily(arrE)
 		n := 0
-		for _, sl := range sels {
-			if eraseVersions(sl.arr) != arrE {
-				continue
-			}
-			inst := sl.idx
-			if off != "" {
-				inst = "(- " + sl.idx + " " + off + ")"
-			}
-			g := "(assert " + strings.ReplaceAll(body, bv, inst) + ")"
-			if !seen[g] {
-				seen[g] = true
-				out = append(out, g)
-				n++
-			}
-			if n >= 60 {
-				break
+		// exact (modulo definitions and heap versions) array matches first, then same-heap-family selects:
+		// the array may be equal only semantically (through a phi or a callee result); instances are sound either way
+		for pass := 0; pass < 2; pass++ {
+			for _, sl := range sels {
+				na := norm(sl.arr)
+				if pass == 0 && na != arrE {
+					continue
+				}
+				if pass == 1 && (na == arrE || heapFamily(na) != fam || fam == "") {
+					continue
+				}
+				inst := sl.idx
+				if off != "" {
+					inst = "(- " + sl.idx + " " + off + ")"
+				}
+				g := "(assert (=> " + fa + " " + strings.ReplaceAll(body, bv, inst) + "))"
+				if !seen[g] {
+					seen[g] = true
+					out = append(out, g)
+					n++
+				}
+				if n >= 40 {
+					break
+				}
 			}
 		}
 	}
 	return out
+}
+
+func balanced2(s string) bool {
+	d := 0
+	for i := 0; i < len(s); i++ {
+		switch s[i] {
+		case '(':
+			d++
+		case ')':
+			d--
+			if d < 0 {
+				return false
+			}
+		}
+	}
+	return d == 0
+}
+
+var skCounter int
+
+// skolemizeGoal replaces every positively occurring (forall ((v Int)) body) of a goal by body[v := fresh constant].
+// Proving the result for arbitrary constants proves the goal.
+func skolemizeGoal(goal string) (string, []string) {
+	var decls []string
+	var walk func(t string, pos bool) string
+	walk = func(t string, pos bool) string {
+		if len(t) == 0 || t[0] != '(' {
+			return t
+		}
+		parts := sexprParts(t)
+		if len(parts) == 0 {
+			return t
+		}
+		switch parts[0] {
+		case "and", "or":
+			out := []string{parts[0]}
+			for _, p := range parts[1:] {
+				out = append(out, walk(p, pos))
+			}
+			return "(" + strings.Join(out, " ") + ")"
+		case "not":
+			if len(parts) == 2 {
+				return "(not " + walk(parts[1], !pos) + ")"
+			}
+		case "=>":
+			if len(parts) == 3 {
+				return "(=> " + walk(parts[1], !pos) + " " + walk(parts[2], pos) + ")"
+			}
+		case "!":
+			if len(parts) >= 2 {
+				return walk(parts[1], pos)
+			}
+		case "forall":
+			if pos && len(parts) == 3 {
+				bvs := sexprParts(parts[1])
+				body := parts[2]
+				for _, b := range bvs {
+					bp := sexprParts(b)
+					if len(bp) != 2 {
+						return t
+					}
+					skCounter++
+					c := fmt.Sprintf("sk!%d", skCounter)
+					decls = append(decls, fmt.Sprintf("(declare-const %s %s)", c, bp[1]))
+					body = strings.ReplaceAll(body, bp[0], c)
+				}
+				return walk(body, pos)
+			}
+		case "exists":
+			if !pos && len(parts) == 3 {
+				bvs := sexprParts(parts[1])
+				body := parts[2]
+				for _, b := range bvs {
+					bp := sexprParts(b)
+					if len(bp) != 2 {
+						return t
+					}
+					skCounter++
+					c := fmt.Sprintf("sk!%d", skCounter)
+					decls = append(decls, fmt.Sprintf("(declare-const %s %s)", c, bp[1]))
+					body = strings.ReplaceAll(body, bp[0], c)
+				}
+				return walk(body, pos)
+			}
+		}
+		return t
+	}
+	return walk(goal, true), decls
+}
+
+// heapFamily names the heap component an array term reads from, e.g. "H!E!Int" for (select H!E!Int!12 r).
+func heapFamily(arr string) string {
+	i := strings.Index(arr, "H")
+	for i >= 0 && i < len(arr) {
+		if strings.HasPrefix(arr[i:], "H!") || strings.HasPrefix(arr[i:], "H0!") {
+			j := i
+			for j < len(arr) && arr[j] != ' ' && arr[j] != ')' {
+				j++
+			}
+			return strings.Replace(arr[i:j], "H0!", "H!", 1)
+		}
+		k := strings.Index(arr[i+1:], "H")
+		if k < 0 {
+			break
+		}
+		i = i + 1 + k
+	}
+	return ""
 }
